@@ -116,9 +116,9 @@ static void ple_case(const vh_args_t *a, int op, int big) {
   if (big) {
     /* shapes that enter the block-recursive algorithm in the small-cache configuration:
        ncols > 64 and width*nrows > __M4RI_PLE_CUTOFF */
-    static const int bm[] = {600, 200, 1030, 700, 130};
-    static const int bn[] = {900, 2800, 500, 770, 4200};
-    int t = vh_randint(0, 4);
+    static const int bm[] = {70, 4200, 130, 600, 200, 1030, 560};
+    static const int bn[] = {8200, 70, 4200, 900, 2800, 500, 960};
+    int t = a->tier ? vh_randint(0, 6) : big - 1;
     m = bm[t]; n = bn[t];
     if (a->maxdim && (m > a->maxdim || n > a->maxdim)) { m = a->maxdim; n = a->maxdim; }
   } else if (a->tier == 0 && (long)m * n > 260L * 200) { if (m > n) m = m / 2 + 1; else n = n / 2 + 1; }
@@ -132,7 +132,7 @@ static void ple_case(const vh_args_t *a, int op, int big) {
   static const char *nm[] = {"ple", "pluq", "_ple", "_pluq", "_ple_naive", "_pluq_naive", "_ple_russian", "_pluq_russian"};
   vh_ev_t e;
   vh_begin(&e, nm[op]);
-  vh_pi(&e, "cutoff", cutoff); vh_pi(&e, "k", k); vh_pi(&e, "big", big);
+  vh_pi(&e, "cutoff", cutoff); vh_pi(&e, "k", k); vh_pi(&e, "big", big ? 1 : 0);
   vh_pi(&e, "isple", (op == P_PLE || op == P__PLE || op == P_PLE_NAIVE || op == P_PLE_RUSSIAN));
   vh_opnd(&e, "A", 'b', A);
   vh_pre(&e);
@@ -165,7 +165,7 @@ int fam_ple(const vh_args_t *a) {
     if (!VH_SHARD(a, idx)) continue;
     vh_case_seed(a, idx);
     VH_CASE(idx)
-    if (idx >= ncases) ple_case(a, (int)(idx % 4), 1);
+    if (idx >= ncases) ple_case(a, (int)(idx % 4), 1 + (int)((idx - ncases) % 3));
     else ple_case(a, (int)(idx % P_NOPS), 0);
     VH_CASE_END
   }
